@@ -267,6 +267,9 @@ class Context:
             cond = parser.parse_expr(cond)
         self.conds.add_condition(cond)
 
+    def add_interval_condition(self, var: str, lower: Expr, upper: Expr):
+        self.conds.add_interval_condition(var, lower, upper)
+
     def extend_condition(self, conds: Conditions):
         for cond in conds.data:
             self.add_condition(cond)
